@@ -387,7 +387,9 @@ def supports_of(fams, sizes=None):
     seen = {}
     for fam in fams:
         for k in range(1, len(fam) + 1):
-            if sizes and k not in sizes:
+            # default (thorough tiers): all supports of size <= 3 plus the full family; larger sub-supports of the
+            # six- and seven-shape families would take days (paths grow about threefold per added shape)
+            if (sizes and k not in sizes) or (not sizes and k > 3 and (k != len(fam) or k > 5)):
                 continue
             for sub in itertools.combinations(fam, k):
                 key = tuple(sorted(C.shape_str(s) for s in sub))
@@ -403,20 +405,20 @@ def tasks(tier, seed):
     stride = 6 if q else 12
     stv_opts = F.stv_option_slice(q)
     for i, o in enumerate(stv_opts):
-        fams = [fams3[i % len(fams3)]] if q else fams3
+        fams = [fams3[i % len(fams3)]] if q else [fams3[(i + j) % len(fams3)] for j in range(3)]
         W = 2 if o.get("transfer") == "random" else None
         for sup in supports_of(fams, sizes=(1, 2, 3, len(fams[0])) if q else None):
             for m in ((1, 2, 3) if (not q or o.get("simultaneous") or i % 2 == 0) else (1, 2)):
                 out.append(_t("STV", m, o, sup, C.K3, nmax=nmax, W=W, weight=len(sup), xval_stride=stride,
                               split=2 if len(sup) >= 4 else 0))
     for i, o in enumerate(F.seq_option_slice(q)):
-        fams = [fams3[(i + 3) % len(fams3)]] if q else fams3
+        fams = [fams3[(i + 3) % len(fams3)]] if q else [fams3[(i + j) % len(fams3)] for j in range(2)]
         for sup in supports_of(fams, sizes=(1, 2, 3, len(fams[0])) if q else None):
             for m in (1, 2):
                 out.append(_t("SequentialRCV", m, o, sup, C.K3, nmax=nmax, weight=len(sup), xval_stride=stride,
                               split=2 if len(sup) >= 4 else 0))
     for i, tb in enumerate((None, "random")):
-        fams = [fams3[(i + 1) % len(fams3)]] if q else fams3
+        fams = [fams3[(i + 1) % len(fams3)]] if q else [fams3[(i + j) % len(fams3)] for j in range(3)]
         for sup in supports_of(fams, sizes=(1, 2, 3, len(fams[0])) if q else None):
             out.append(_t("IRV", 1, {"quota": "droop", "tiebreak": tb}, sup, C.K3, nmax=nmax, weight=len(sup), xval_stride=stride))
     # the same rules over candidate names that contain one another (W1 / W10 / W)
